@@ -362,6 +362,21 @@ func runOne(falco, vclPath string, r rendered, b behaviour) (*observation, error
 	for _, id := range b.Bps {
 		bl = append(bl, map[string]any{"line": r.lineOf[id]})
 	}
+	// the breakpoints of a source are what the LAST setBreakpoints request said: first set one line more (the first
+	// statement of the program that is not a breakpoint of the behaviour), then the behaviour's own set
+	inBps := map[int]bool{}
+	for _, id := range b.Bps {
+		inBps[id] = true
+	}
+	for id := 1; id <= 3; id++ {
+		if !inBps[id] && r.lineOf[id] > 0 {
+			more := append(append([]map[string]any{}, bl...), map[string]any{"line": r.lineOf[id]})
+			if _, err := waitResp(c.send("setBreakpoints", map[string]any{"source": map[string]any{"path": vclPath}, "breakpoints": more})); err != nil {
+				return nil, err
+			}
+			break
+		}
+	}
 	sr, err := waitResp(c.send("setBreakpoints", map[string]any{"source": map[string]any{"path": vclPath}, "breakpoints": bl}))
 	if err != nil {
 		return nil, err
